@@ -374,6 +374,11 @@ theorem deadline_simInv (D : Nat) : SimInv3 (fun x => x.st.cfg = Fixes.all ∧ B
       exact ⟨hq.1.cfg.trans h.1, h.2.congr (s := x.st) (pollWaiter_alive s0 _) hq.1.normal hq.1.high hq.1.urgent hq.1.timer
         (ext_pollWaiter s0 _).now⟩
     · exact h
+  clone := fun x f h => by
+    let s0 : St := { x.st with waiters := x.st.waiters ++ [{ id := x.nextWaiter, done := f }] }
+    have hq := quiet_pollWaiter s0 x.nextWaiter
+    exact ⟨hq.1.cfg.trans h.1, h.2.congr (s := x.st) (pollWaiter_alive s0 _) hq.1.normal hq.1.high hq.1.urgent hq.1.timer
+      (ext_pollWaiter s0 _).now⟩
 
 /-- **C08, the time bound** — take ANY state of the repaired job task in which a `Delete` is queued (as the worker's quit
     leaves it). Whatever happens afterwards — every race resolution, any passage of time, any further sends that carry no
